@@ -308,11 +308,19 @@ class World:
                 k["status"] = int(lab[2])
                 self.events.append(("death", lab[1], int(lab[2]), self.mono))
         elif kind == "S":
+            q = self.arbiter.SIG_QUEUE
+            before = list(list.__iter__(q))
             self.in_handler += 1
             try:
                 self.arbiter.signal(int(lab[1]), None)
             finally:
                 self.in_handler -= 1
+            after = list(list.__iter__(q))
+            # a signal that reaches the master while its queue has room is queued (TTIN / TTOU / HUP are requests: two of them are
+            # two requests); the queue holds five, what arrives beyond that is dropped
+            if len(before) < 5 and after != before + [int(lab[1])] and hasattr(self, "oracle_notes"):
+                self.oracle_notes.append("signal %d reached the master while its queue held %r (room for %d more) and was not queued: "
+                                         "the queue is now %r" % (int(lab[1]), before, 5 - len(before), after))
             self.events.append(("signal", int(lab[1]), self.mono))
         elif kind == "T":
             self.mono += int(lab[1])
